@@ -37,6 +37,9 @@ struct Frag {
 enum Content {
     Frags(Vec<Frag>),
     Raw(Vec<u8>),
+    /// synthetic fragments of messages that are never completed: arbitrary 24-bit header values
+    /// (type, total length, message_seq, fragment offset, fragment bytes)
+    Synth(Vec<(u8, u64, u16, u64, Vec<u8>)>),
 }
 
 #[derive(Clone)]
@@ -101,9 +104,21 @@ pub fn generate(rng: &mut Rng, prop: Prop) -> Scenario {
     // messages and flights
     let nmsg = rng.urange(1, 6);
     let mut msgs: Vec<Item> = Vec::new();
+    let seq_base: u16 = match rng.below(4) {
+        0 | 1 => 0,
+        2 => rng.u16(),
+        _ => *rng.pick(&[255u16, 256, 65530, 0x7fff, 0x8000, 0xff00]),
+    };
+    let _ = f_seqb;
+    let huge = rng.chance(1, 150);
     for i in 0..nmsg {
-        let m = gen_msg(rng, batch == 0).int("_id", i as u64).int("_seq", if f_seqb && rng.chance(1, 3) { 65535 - (nmsg - 1 - i) as u64 } else { i as u64 });
-        msgs.push(m);
+        let mut m = gen_msg(rng, batch == 0);
+        if huge && i == 0 {
+            // a certificate chain larger than 64 KiB: fragment offsets beyond 16 bits
+            let n = rng.urange(22, 30);
+            m = Item::new("certificate").list("certs", (0..n).map(|_| rng.bytes(2900)).collect());
+        }
+        msgs.push(m.int("_id", i as u64).int("_seq", seq_base.wrapping_add(i as u16) as u64));
     }
     let bodies: Vec<Vec<u8>> = msgs.iter().map(enc::hs_body).collect();
     let mut flights: Vec<Vec<usize>> = Vec::new();
@@ -197,6 +212,26 @@ pub fn generate(rng: &mut Rng, prop: Prop) -> Scenario {
                 seqno = (seqno + 1) & 0xffff_ffff_ffff;
                 recs.push(Rec { ctype: 22, ver, epoch, seqno, content: Content::Frags(vec![Frag { m: m as u64, off, len }]), declen: None });
             }
+            if rng.chance(1, 6) {
+                // a stray fragment of some other (never completed) message with arbitrary header values
+                let total = match rng.below(4) {
+                    0 => 0xff_ffff,
+                    1 => rng.range(2, 0xff_ffff),
+                    2 => rng.range(2, 70000),
+                    _ => rng.range(2, 600),
+                };
+                let flen = rng.small_len(60).min(total as usize - 1);
+                let off = match rng.below(4) {
+                    0 => total - flen as u64, // reaches the end exactly
+                    1 => 0,
+                    _ => rng.range(0, total - flen as u64),
+                };
+                let (off, flen) = if off == 0 && flen as u64 == total { (0, flen - 1) } else { (off, flen) };
+                let t = if rng.chance(1, 2) { rng.u8() } else { *rng.pick(&[1u8, 2, 3, 11, 12, 14, 16, 20]) };
+                seqno = (seqno + 1) & 0xffff_ffff_ffff;
+                let ms = seq_base.wrapping_add(100 + rng.below(50) as u16);
+                recs.push(Rec { ctype: 22, ver, epoch, seqno, content: Content::Synth(vec![(t, total, ms, off, rng.bytes(flen))]), declen: None });
+            }
             if rng.chance(1, 8) {
                 // a ChangeCipherSpec or alert record inside the flight
                 seqno = (seqno + 1) & 0xffff_ffff_ffff;
@@ -211,6 +246,24 @@ pub fn generate(rng: &mut Rng, prop: Prop) -> Scenario {
                 }
             }
         }
+        if rng.chance(1, 25) {
+            // a long run of tiny records (alerts / CCS) in the flight
+            let n = match rng.below(3) {
+                0 => *rng.pick(&[15usize, 16, 17, 31, 32, 33, 63, 64, 65, 127, 128, 129]),
+                _ => rng.urange(5, 150),
+            };
+            for _ in 0..n {
+                seqno = (seqno + 1) & 0xffff_ffff_ffff;
+                if rng.chance(1, 2) {
+                    recs.push(Rec { ctype: 20, ver, epoch, seqno, content: Content::Raw(vec![1]), declen: None });
+                } else {
+                    recs.push(Rec { ctype: 21, ver, epoch, seqno, content: Content::Raw(vec![1, rng.u8()]), declen: None });
+                }
+            }
+            if mtu < 4000 && rng.chance(2, 3) {
+                mtu = 4000; // let them share one datagram
+            }
+        }
         if batch >= 1 && rng.chance(1, 30) {
             // a record around the cap whose payload is really present (decodable CCS bytes or alerts)
             let n = *rng.pick(&[16638usize, 16640, 16641, 16642, 16644, 17000]);
@@ -219,6 +272,14 @@ pub fn generate(rng: &mut Rng, prop: Prop) -> Scenario {
                 recs.push(Rec { ctype: 20, ver, epoch, seqno, content: Content::Raw(vec![1; n]), declen: None });
             } else {
                 recs.push(Rec { ctype: 21, ver, epoch, seqno, content: Content::Raw([1u8, 0].repeat(n / 2)), declen: None });
+            }
+        }
+        if rng.chance(1, 4) {
+            // record versions are not validated by the parser: any value may appear on any record
+            for r in recs.iter_mut() {
+                if rng.chance(1, 3) {
+                    r.ver = if rng.chance(1, 2) { *rng.pick(&[0x0100u16, 0x0303, 0x0301, 0xfefc, 0xfffe, 0x0000]) } else { rng.u16() };
+                }
             }
         }
         if batch >= 1 {
@@ -313,6 +374,11 @@ pub fn generate(rng: &mut Rng, prop: Prop) -> Scenario {
                     }
                 }
                 Content::Raw(b) => s.push(Item::new("c").bytes("data", b)),
+                Content::Synth(v) => {
+                    for (t, total, ms, off, data) in v {
+                        s.push(Item::new("fx").int("type", *t as u64).int("total", *total).int("mseq", *ms as u64).int("off", *off).bytes("data", data));
+                    }
+                }
             }
         }
     }
@@ -350,6 +416,7 @@ fn rec_len(r: &Rec, bodies: &[Vec<u8>]) -> usize {
     13 + match &r.content {
         Content::Frags(fs) => fs.iter().map(|f| 12 + f.len.min(bodies[f.m as usize].len().saturating_sub(f.off))).sum::<usize>(),
         Content::Raw(b) => b.len(),
+        Content::Synth(v) => v.iter().map(|x| 12 + x.4.len()).sum::<usize>(),
     }
 }
 
@@ -472,6 +539,14 @@ fn build(scn: &Scenario) -> (Vec<LDgram>, Vec<(usize, Vec<u8>)>) {
                     let hdr_at = payload.len();
                     payload.extend(enc::dtls_handshake(mtype, body.len() as u64, mseq, off as u64, len as u64, &body[off..off + len]));
                     r.frags.push(LFrag { m: *mi, mtype, mseq, total: body.len(), off, len, at: (hdr_at + 12, hdr_at + 12 + len) });
+                }
+            }
+            "fx" => {
+                if let Some((r, payload)) = cur.as_mut() {
+                    let data = it.b("data");
+                    let hdr_at = payload.len();
+                    payload.extend(enc::dtls_handshake(it.u("type") as u8, it.u("total"), it.u("mseq") as u16, it.u("off"), data.len() as u64, data));
+                    r.frags.push(LFrag { m: usize::MAX, mtype: it.u("type") as u8, mseq: it.u("mseq") as u16, total: it.u("total") as usize, off: it.u("off") as usize, len: data.len(), at: (hdr_at + 12, hdr_at + 12 + data.len()) });
                 }
             }
             "c" => {
@@ -686,6 +761,9 @@ pub fn execute(scn: &Scenario, ctx: &mut Ctx) {
         if dg.recs.len() > 1 {
             ctx.fault("multi-record-datagram");
         }
+        if dg.recs.len() > 10 {
+            ctx.fault("many-small-records");
+        }
         if dg.recs.iter().any(|r| r.end - r.start > 13 + 16000) {
             ctx.fault("cap-sized-record");
         }
@@ -865,8 +943,9 @@ pub fn execute(scn: &Scenario, ctx: &mut Ctx) {
             if body.is_empty() || !truth.get(mi).map(|v| v.iter().all(|&c| c)).unwrap_or(false) {
                 continue;
             }
-            // a message_seq shared by two messages of the scenario has no unique reassembly: skip
-            if scn.items.iter().filter(|i| i.has("_seq") && i.has("_id") && i.u("_seq") as u16 == mseq).count() != 1 {
+            // a message_seq shared by two messages of the scenario (or by a stray synthetic fragment)
+            // has no unique reassembly: skip
+            if scn.items.iter().filter(|i| i.has("_seq") && i.has("_id") && i.u("_seq") as u16 == mseq).count() != 1 || scn.items.iter().any(|i| i.kind == "fx" && i.u("mseq") as u16 == mseq) {
                 continue;
             }
             ctx.fault("reassembled");
@@ -975,9 +1054,8 @@ fn record_oracle(ctx: &mut Ctx, scn: &Scenario, lr: &LRec, p: &PRec, sub: &[u8])
     if !lr.frags.is_empty() && lr.ctype == 22 {
         // handshake record: every message's 12-byte header verbatim, fragment predicate and body
         let all_ok = lr.frags.iter().all(|f| {
-            let kind = scn.items[f.m].kind.as_str();
             let is_frag = f.off > 0 || f.len < f.total;
-            is_frag || SUPPORTED.contains(&kind)
+            is_frag || (f.m != usize::MAX && SUPPORTED.contains(&scn.items[f.m].kind.as_str()))
         });
         if !all_ok {
             return false; // an unfragmented message of a kind the property does not list: unconstrained
@@ -991,7 +1069,13 @@ fn record_oracle(ctx: &mut Ctx, scn: &Scenario, lr: &LRec, p: &PRec, sub: &[u8])
             return true;
         }
         for (i, (f, m)) in lr.frags.iter().zip(p.msgs.iter()).enumerate() {
-            let sent = &scn.items[f.m];
+            if f.m == usize::MAX {
+                ctx.fault("synthetic-fragment-header");
+            }
+            // is_fragment() and the body variant must tell the same story
+            if m.kind == 0 && m.is_fragment != (m.body.kind == "fragment") {
+                ctx.violate(Prop::C10, "dtls/fragment-predicate", || format!("message {}: is_fragment() = {} but the body is `{}`", i, m.is_fragment, m.body.kind));
+            }
             if m.kind != 0 {
                 ctx.violate(Prop::C10, "dtls/record-order", || format!("message {} of the record is not a handshake message", i));
                 continue;
@@ -1023,7 +1107,8 @@ fn record_oracle(ctx: &mut Ctx, scn: &Scenario, lr: &LRec, p: &PRec, sub: &[u8])
                     Some(at) if rel_is(at, want_at.0, want_at.1) => {}
                     other => ctx.violate(Prop::C10, "dtls/fragment-body", || format!("message {}: Fragment body at (offset, len) {:?} of the record, expected {:?} (exactly fragment_length opaque bytes)", i, other, want_at)),
                 }
-            } else if !val::same(&m.body, sent) {
+            } else if f.m != usize::MAX && !val::same(&m.body, &scn.items[f.m]) {
+                let sent = &scn.items[f.m];
                 ctx.violate(Prop::C10, format!("dtls/body/{}", sent.kind), || format!("unfragmented message {}: {}", i, val::diff(sent, &m.body)));
             }
         }
